@@ -104,8 +104,8 @@ PROPS.update({
                quick=1500, thorough=30000),
     "C10": _e2("TestVerifC10", "Generated open/close/reopen histories with stale calls on the closed connection and generated schedules (including close/reopen between the poller's fetch and dispatch); judged only on the bystander: its data, its callbacks, its liveness.",
                "scenario = A (handler or not, 0-3 peer writes, closed by user or peer) x B opened after A's teardown (poller kicked so that the slot is spliced back: B re-uses A's slot and descriptor number) or before x 1-5 stale calls on A drawn from 18 Connection/Reader/Writer methods; non-trivial = B re-used A's slot and at least one stale call ran after B was open; distinct = scenario + event sequence"),
-    "C12": _e2("TestVerifC12", "The space close mode x buffered input x pending output x callbacks x method x repeat (3648 points) is sampled with generated schedules in the quick tier and enumerated completely in the thorough tier; 'blocks' is exact (the caller is parked at quiescence), panics are recovered and reported.",
-               "space = {user, peer, peer-then-user, detach} x {0, 5 bytes buffered} x {no, malloc'd unflushed output} x {no callbacks, OnRequest, OnConnect+OnRequest} x 38 Connection/Reader/Writer calls x {once, twice}; every point is non-trivial (the method runs after the close reached quiescence); distinct = point of the space",
+    "C12": _e2("TestVerifC12", "The space close mode x buffered input x pending output x callbacks x method x repeat x prior timed wait (7296 points) is sampled with generated schedules in the quick tier and enumerated completely in the thorough tier; 'blocks' is exact (the caller is parked at quiescence), panics are recovered and reported.",
+               "space = {user, peer, peer-then-user, detach} x {0, 5 bytes buffered} x {no, malloc'd unflushed output} x {no callbacks, OnRequest, OnConnect+OnRequest} x 38 Connection/Reader/Writer calls x {once, twice} x {no read timeout, a read timeout set and one Reader call that really waited before the close}; every point is non-trivial (the method runs after the close reached quiescence); distinct = point of the space",
                quick=600, thorough=4000),
     "C04": dict(_e2("TestVerifC04", "Two complementary generated searches against one oracle, the position-keyed byte stream: (E2) both directions of a connection on a socketpair with a tiny send buffer under generated schedules, which reaches the flusher/poller and reader/poller hand-off windows exactly; (E3) generated bulk workloads on real threads over TCP4/TCP6/unix with generated socket buffer sizes, writer and reader API mixes, where the kernel chooses the partial-write boundaries.",
                "E2: flush scenario (1-3 flushes of 1..12xSO_SNDBUF through Malloc/Write/WriteBinary/mixed, peer drain script, peer close) or read scenario (1-4 Reader calls up to 9000 bytes, peer chunks, peer close), generated schedule; non-trivial = the flusher parked waiting for the poller / a Reader call parked waiting for a delivery. E3: 1-4 connections x {tcp4,tcp6,unix} x payload up to 1 MiB (8 MiB thorough) each way x write chunking and API mix x reader op mix x SO_SNDBUF/SO_RCVBUF x reader pace; non-trivial = a payload of at least 4x the send buffer or above 64 KiB. distinct = scenario (+ event sequence for E2)"),
@@ -123,11 +123,11 @@ PROPS.update({
                "scenario = 1-5 descriptors (+120-140 idle ones in 5% of the cases, crossing the 128-event array growth) x Inputs buffer size x optional output stream through Outputs/OutputAck with a 2 KiB socket buffer x peer script (writes, reads, shutdown, close, close with unread data) x user detach x Trigger x Close; non-trivial = at least two descriptors and one of them got data and hang-up; distinct = scenario + event sequence",
                quick=1500, thorough=40000),
     "C13": dict(_e2("TestVerifC13", "Two generated searches: (E2) the real server on a unix listener on one poller with accepted connections on a second poller, clients connecting/writing/closing at scheduler-chosen moments - the tracking map is compared with the set of active connections at exact quiescence; (E3) generated mixes of idle, busy and closing clients around Shutdown with generated handler durations and context deadlines on real threads - Shutdown/Serve results, idle-closed/busy-kept, descriptor census.",
-               "E2: 1-3 clients x {connect, connect+write, connect+close, connect+write+close} x OnConnect or not, two pollers, generated schedule; non-trivial = a client's close fell within 25 steps of its connection's OnPrepare. E3: 0-4 idle, 0-3 busy (handler blocked until released), 0-3 closing clients x Shutdown deadline before/after the handlers' release x tcp4/unix; non-trivial = at least one busy and one idle connection at Shutdown, or a close racing the accept; distinct = scenario (+ event sequence for E2)"),
+               "E2: 1-3 clients x {connect, connect+write, connect+close, connect+write+close} x OnConnect or not, two pollers, generated schedule; non-trivial = a client's close fell within 25 steps of its connection's OnPrepare. E3: 0-4 idle, 0-3 busy (handler blocked until released), 0-3 closing clients x Shutdown deadline before/after the handlers' release x tcp4/unix, or an accept-fails-with-EMFILE stretch of 20/150/700/2300 ms with clients queued meanwhile; non-trivial = at least one busy and one idle connection at Shutdown, or a close racing the accept; distinct = scenario (+ event sequence for E2)"),
         engine="E2 simworld + E3 livenet",
         parts=[
             {"test": "TestVerifC13", "variant": "instr", "chunk": 2500, "quick": {"checks": 1500, "shards": 16}, "thorough": {"checks": 40000, "shards": 16}, "replay_marker": "decisions"},
-            {"test": "TestVerifC13Live", "variant": "plain", "chunk": 0, "crash_is_violation": True, "quick": {"checks": 6, "shards": 8}, "thorough": {"checks": 150, "shards": 12}, "replay_marker": "deadline_ms"},
+            {"test": "TestVerifC13Live", "variant": "plain", "chunk": 0, "crash_is_violation": True, "quick": {"checks": 8, "shards": 8}, "thorough": {"checks": 150, "shards": 12}, "replay_marker": "deadline_ms"},
         ]),
 })
 
@@ -155,7 +155,7 @@ PROPS.update({
                "scenario = target kind x timeout in {50us..300ms} x concurrency in {1,2,8,32}; non-trivial = at least one dial failed or timed out; distinct = scenario + number of failed/timed-out dials",
                quick=25, thorough=600),
     "C15": _e3("TestVerifC15", "Generated lifecycles of connections (dialled, accepted, adopted with NewFDConnection, detached), listeners (CreateListener/ConvertListener), failed dials and private poller pools; every close(2) netpoll issues is audited BEFORE it executes (is the number open? is it a harness-owned victim parked on a number netpoll has already closed?) and the descriptor census must return to its baseline.",
-               "scenario = 1-6 lifecycle steps out of 11 kinds (dial tcp/unix, refused dial, timed-out dial, server tcp/unix with 3 clients and Shutdown, NewFDConnection, Detach, private manager grow/shrink/Close, CreateListener, 4 connections closed twice concurrently); non-trivial = the scenario has an error path, a server or concurrent closes; distinct = step sequence",
+               "scenario = 1-6 lifecycle steps out of 12 kinds (dial tcp/unix, refused dial, timed-out dial, dial whose poller registration fails, server tcp/unix with 3 clients and Shutdown, NewFDConnection, Detach, private manager grow/shrink/Close, CreateListener, 4 connections closed twice concurrently); non-trivial = the scenario has an error path, a server or concurrent closes; distinct = step sequence",
                quick=20, thorough=500, variant="instr",
                level_note="trusted: the close(2) audit points are inserted by tools/vinstr before every syscall.Close / file.Close of the current sources; F_DUPFD parks victims atomically on freed numbers; /proc/self/fd census"),
     "C18": _e3("TestVerifC18", "Generated sequences of SetNumLoops/SetLoadBalance applied between phases on private managers, each phase with 1-32 goroutines calling Pick concurrently (the first phase races the lazy initialisation); pool size, membership, liveness of every poller (an operator registered on it must receive an event), descriptor census after shrink and Close, round-robin spread.",
